@@ -31,7 +31,7 @@ FAMILIES = {
     "same-uid-vertices": ("Vertex", {"uid": "a.uid"}),
     "universes-as-vertices": ("Universe", {}),
 }
-SCHEDULES = ("off", "on", "on/off-around-mutation", "on-after-mutation", "unpickled-on", "unpickled-off")
+SCHEDULES = ("off", "on", "on/off-around-mutation", "on-after-mutation", "unpickled-on", "unpickled-warm-on", "unpickled-off")
 
 
 class GM(struct.Model):
@@ -173,6 +173,13 @@ def _adopt(g, before, mname):
     return None
 
 
+def _fresh_name(g, name):
+    """the model's name for a new link; made unique when the model is no longer followed (model-free continuation for C01)"""
+    while name in g.O:
+        name += "'"
+    return name
+
+
 def mutators(h, family):
     I = h.I
     f = h.fn
@@ -184,7 +191,7 @@ def mutators(h, family):
             n0 = len(h.w.alloc)
             out = h.call(h.cls(cls), g.obj(x), g.obj(y))
             if out.kind == "return" and isinstance(out.value, Obj):
-                out.value.name = f"new{g.m.nnew + 1}:{cls}"
+                out.value.name = _fresh_name(g, f"new{g.m.nnew + 1}:{cls}")
                 g.O[out.value.name] = out.value
             return out
 
@@ -255,11 +262,13 @@ def mutators(h, family):
             else:
                 out = h.call(f(EX + fname), g.obj(x), g.obj(y), dontdup=dontdup)
             if out.kind == "return" and isinstance(out.value, Obj) and out.value not in g.O.values():
-                out.value.name = f"new{g.m.nnew + 1}:{made}"
+                out.value.name = _fresh_name(g, f"new{g.m.nnew + 1}:{made}")
                 g.O[out.value.name] = out.value
             return out
 
         def model(m):
+            if dontdup and any(len(m.lverts[l]) != 2 for v_ in (x, y) for l in m.vlinks[v_] if l in m.lverts):
+                return DC        # the scan for an existing joining link meets a link that has lost an end: not specified
             J = joining(m, x, y)
             if dontdup and J:
                 return ("link-any", J)
@@ -274,6 +283,8 @@ def mutators(h, family):
 
     def ex_unlink(x, y, destroy):
         def model(m):
+            if any(len(m.lverts[l]) != 2 for v_ in (x, y) for l in m.vlinks[v_] if l in m.lverts):
+                return DC        # a link with more or fewer than two ends on either vertex: whether it "joins" them is not specified
             J = joining(m, x, y)
             for l in J:
                 for v in (x, y):
@@ -301,10 +312,25 @@ def mutators(h, family):
                 if u not in m.vuni[v]:
                     m.vuni[v].append(u)
             else:
-                # the object-side call is the low-level half: it records the universe on the object (C02 decides the pair)
-                return DC
+                # Vertex.add_to_universe: records the universe on the vertex and, if needed, the vertex in the universe
+                if u not in m.vuni[v]:
+                    m.vuni[v].append(u)
+                if v not in m.umem[u]:
+                    m.umem[u].append(v)
             return None
-        return Mut(f"{u}.add_vertex({v})" if side == "u" else f"{v}.add_to_universe({u})", "universe-add", "edgegraph.structure.universe.Universe.add_vertex", do, model)
+        return Mut(f"{u}.add_vertex({v})" if side == "u" else f"{v}.add_to_universe({u})", "universe-add" if side == "u" else "universe-add/object-side",
+                   "edgegraph.structure.universe.Universe.add_vertex" if side == "u" else "edgegraph.structure.vertex.Vertex.add_to_universe", do, model)
+
+    def v_remove(v, u):
+        def model(m):
+            if u in m.vuni[v]:
+                m.vuni[v].remove(u)
+                if v in m.umem[u]:
+                    m.umem[u].remove(v)
+                return None
+            return "raise"
+        return Mut(f"{v}.remove_from_universe({u})", "universe-remove/object-side", "edgegraph.structure.vertex.Vertex.remove_from_universe",
+                   lambda g: h.call(I.getattr(g.obj(v), "remove_from_universe"), g.obj(u)), model)
 
     def u_remove(u, v):
         def model(m):
@@ -316,7 +342,17 @@ def mutators(h, family):
             return "raise"
         return Mut(f"{u}.remove_vertex({v})", "universe-remove", "edgegraph.structure.universe.Universe.remove_vertex", lambda g: h.call(I.getattr(g.obj(u), "remove_vertex"), g.obj(v)), model)
 
-    M += [u_add("U", "d", "u"), u_add("U", "a", "u"), u_add("W", "U", "u"), u_add("U", "U", "u"), u_add("W", "a", "u"), u_remove("U", "b"), u_remove("U", "a"), u_remove("U", "d"), u_remove("W", "a")]
+    M += [u_add("U", "d", "u"), u_add("U", "a", "u"), u_add("W", "U", "u"), u_add("U", "U", "u"), u_add("W", "a", "u"), u_remove("U", "b"), u_remove("U", "a"), u_remove("U", "d"), u_remove("W", "a"),
+          u_add("U", "d", "v"), u_add("W", "a", "v"), v_remove("b", "U"), v_remove("d", "U"),
+          # a member leaves and another one joins: the universe has the same size before and after
+          seq(u_remove("U", "b"), u_add("U", "d", "u")), seq(v_remove("a", "U"), u_add("U", "d", "v")), seq(u_add("U", "d", "u"), u_remove("U", "c"))]
+    # a third vertex joins a two-ended link (the statement's "links that name one vertex several times" / more than two ends)
+    M += [add_to_link("d", "e_ab"), add_vertex("e_bc", "a"), seq(add_to_link("d", "e_ab"), ex_unlink("a", "b", True)), seq(add_vertex("e_ca", "b"), ex_unlink("c", "a", False))]
+    h._mk = dict(create=create, setend=setend, unlink_from=unlink_from, remove_from_link=remove_from_link, add_vertex=add_vertex, add_to_link=add_to_link, seq=seq,
+                 ex_link=ex_link, ex_unlink=ex_unlink, u_add=u_add, u_remove=u_remove, v_remove=v_remove)
+    if FAMILIES[family][0] == "Universe":
+        # the vertices are universes themselves: one of them takes a member that is outside U
+        M += [u_add("a", "d", "u"), u_add("b", "d", "v"), seq(u_add("a", "d", "u"), u_add("c", "b", "u"))]
     return M
 
 
@@ -392,6 +428,25 @@ def observers(h, C):
                 return trav.REF[tname](nbm, start, member)
             O.append(Obs(f"{lst}({uni}, {start}, {d})", ("C05", "C06", "C07"), f"{mod}.{gen}",
                          lambda g, fn=f(f"{mod}.{lst}"), uni=uni, start=start, d=d: h.call(fn, g.obj(uni), g.obj(start), direction_sensitive=C[d], unknown_handling=C["NEIGHBOR"]), want))
+        # the same traversal twice under LNK_UNKNOWN_ERROR: with a link of unknown type on a reachable vertex both calls raise, otherwise
+        # both list the reference order (a first call that raised must not leave a partial answer behind for the second)
+        def want_err(m, tname=tname):
+            nbm, has_x = {}, set()
+            for v in m.vlinks:
+                r = m_neighbors(m, v, "FORWARD", "NONNEIGHBOR")
+                if r is DC:
+                    return DC
+                nbm[v] = r
+                if isinstance(m_neighbors(m, v, "FORWARD", "ERROR"), str):
+                    has_x.add(v)
+            order = trav.REF[tname](nbm, "a", lambda x: True)
+            w = "raise NotImplementedError" if any(v in has_x for v in order) else order
+            return [w, w]
+
+        def do_err(g, fn=f(f"{mod}.{lst}")):
+            from sa.harness import Outcome
+            return Outcome("return", _Plain([osig(h.call(fn, None, g.obj("a"), direction_sensitive=C["FORWARD"], unknown_handling=C["ERROR"])) for _ in (0, 1)]))
+        O.append(Obs(f"{lst}(None, a, FORWARD, ERROR) twice", ("C05", "C06", "C07", "C13"), f"{mod}.{gen}", do_err, want_err))
         for uni, start, val in ((None, "a", "d"), ("U", "a", "c"), ("U", "a", "d"), (None, "b", "b")):
             def wants(m, tname=tname, uni=uni, start=start, val=val):
                 nbm = {}
@@ -611,6 +666,9 @@ def _job(job):
     except Unknown as u:
         col.undecide(f"history engine, {fam} / {sch}: {u}")
         n = 0
+    except Raised as r:
+        col.undecide(f"history engine, {fam} / {sch}: building the graph raises {r}")
+        n = 0
     return n, col.calls
 
 
@@ -679,7 +737,7 @@ def representatives(MUT):
 
 def run_one(h, res, prop, rule, fam, sch, extra_observers, mut_kinds, quick_subset, first=None, chunk=None):
     C = c04.consts(h)
-    OBS = observers(h, C) + (extra_observers(h, C) if extra_observers else [])
+    OBS = (extra_observers(h, C) if extra_observers else []) + observers(h, C)      # a renderer is observed before the plain queries it is built on
     if prop == "C10":
         for o in OBS:
             o.props = tuple(o.props) + ("C10",)      # the copy answers *every* query like the original's model
@@ -689,9 +747,11 @@ def run_one(h, res, prop, rule, fam, sch, extra_observers, mut_kinds, quick_subs
     n = 0
     seen = set()
 
-    def observe(g, phase, ctxinfo, check=True):
+    def observe(g, phase, ctxinfo, check=True, mine_first=False):
         nonlocal n
-        todo = warm + mine + (state if prop in STATE_PROPS else [])
+        # mine_first: the property's own observers are the first readers after the mutation (they meet cold caches), the accessors
+        # and neighbors() queries follow; otherwise the other way round
+        todo = (mine + warm if mine_first else warm + mine) + (state if prop in STATE_PROPS else [])
         for idx, o in enumerate(todo):
             out = o.do(g)
             if not check or prop not in o.props:
@@ -734,17 +794,17 @@ def run_one(h, res, prop, rule, fam, sch, extra_observers, mut_kinds, quick_subs
         todo.append((mu, "insertion"))
         if mu is not None and "unlink" in mu.kind.split("+") + mu.kind.split("/") and not quick_subset and sch in ("off", "on"):
             todo.append((mu, "reversed"))     # explicit.unlink walks a set of links: both iteration orders
-    for mu, order in todo:
+    for hi, (mu, order) in enumerate(todo):
         h.w.set_order = order
         try:
             g = G(h, fam)
-            flag(h, sch in ("on", "on/off-around-mutation", "unpickled-off"))
+            flag(h, sch in ("on", "on/off-around-mutation", "unpickled-off", "unpickled-warm-on"))
             if sch.startswith("unpickled"):
                 observe(g, "warm", (fam, sch, None), check=False)
                 unpickled_copy(h, g)
                 h.w.restore()
                 h.settle()
-                flag(h, sch == "unpickled-on")
+                flag(h, sch in ("unpickled-on", "unpickled-warm-on"))
             observe(g, "before", (fam, sch, None), check=(mu is None))
             if mu is None:
                 continue
@@ -788,7 +848,7 @@ def run_one(h, res, prop, rule, fam, sch, extra_observers, mut_kinds, quick_subs
                         if got != []:
                             res.violation(rule, mu.qual, f"family={fam},schedule={sch},after={mu.kind},observer=I1", f"history [{describe(fam, sch, mu)}]: the call {why}; afterwards {got}", replay=replay(fam, sch, mu, o))
                 continue
-            observe(g, "after", (fam, sch, mu))
+            observe(g, "after", (fam, sch, mu), mine_first=bool(hi % 2))
         except Unknown as u:
             res.undecide(f"history [{describe(fam, sch, mu)}]: {u}")
     return n
@@ -822,6 +882,7 @@ def frozen(h, g, res, queries, state, info, rule):
 def describe(fam, sch, mu):
     s = {"off": "caching off", "on": "caching on", "on/off-around-mutation": "caching on, switched off around the mutation", "on-after-mutation": "caching switched on after the mutation",
          "unpickled-on": "graph copied through the pickle protocol into fresh class-level state, caching on",
+         "unpickled-warm-on": "graph built and queried with caching on (warm memos), copied through the pickle protocol into fresh class-level state, caching on",
          "unpickled-off": "graph built with caching on and copied through the pickle protocol into fresh class-level state, caching off"}[sch]
     return f"{fam} graph; {s}; every accessor and query once; {mu.label if mu else '(no mutation)'}; query"
 
@@ -835,3 +896,203 @@ def replay(fam, sch, mu, o):
         L.append(f"{n} = {cls}({x}, {y})")
     L += ["U = Universe(vertices=[a, b, c]); W = Universe()", f"# schedule: {sch}", f"# then: {mu.label if mu else ''}", f"# then observe: {o.name if o else ''}"]
     return "\n".join(L)
+
+
+# ------------------------------------------------------------------------------- sequences over a focused alphabet
+def alphabet(h, family, kind, OBS, small=False):
+    """A small set of operations on ONE link (or one universe) - every public mutator from either side with the argument shapes
+    that matter, switching the flag on and off, and a read of every accessor and query - so that *every* sequence up to a given
+    length can be evaluated: the state a tree may keep between calls (guards, memos, lazily refreshed indexes) is reached by some
+    short sequence of these."""
+    from sa.harness import Outcome
+    mutators(h, family)
+    k = h._mk
+    warm = [o for o in OBS if o.name.endswith((".links", ".universes", ".vertices", "vertices")) or o.name.startswith("neighbors(")]
+
+    def read(g):
+        for o in warm + [o for o in OBS if getattr(o, "_mine", False)]:
+            o.do(g)
+        return Outcome("return", None)
+    A = [Mut("flag on", "flag", None, lambda g: (flag(h, True), Outcome("return", None))[1], lambda m: None),
+         Mut("flag off", "flag", None, lambda g: (flag(h, False), Outcome("return", None))[1], lambda m: None),
+         Mut("read every accessor and neighbors()", "read", None, read, lambda m: None)]
+    if kind == "universes" and not any(o.name.startswith(("bft(", "bfs(")) for o in OBS if False):
+        pass
+    if kind == "links":
+        A += [k["unlink_from"]("e_ab", "a"), k["unlink_from"]("e_ab", "b"), k["remove_from_link"]("a", "e_ab"), k["remove_from_link"]("b", "e_ab"),
+              k["add_vertex"]("e_ab", "c"), k["add_vertex"]("e_ab", "b"), k["add_to_link"]("c", "e_ab"), k["add_to_link"]("a", "e_ab"),
+              k["setend"]("e_ab", 0, "c"), k["setend"]("e_ab", 1, "c"), k["setend"]("e_ab", 1, "a"), k["setend"]("e_ab", 0, None), k["setend"]("e_ab", 1, "b"),
+              k["ex_unlink"]("a", "b", True), k["ex_unlink"]("b", "a", False), k["ex_link"]("link_directed", None, "a", "b", True), k["create"]("DirectedEdge", "a", "b")]
+    elif small:
+        A = A[2:] + [k["u_add"]("U", "d", "u"), k["u_remove"]("U", "a"), k["u_add"]("U", "d", "v"), k["v_remove"]("d", "U"), k["v_remove"]("a", "U"), k["u_add"]("U", "W", "u")]
+    else:
+        A += [k["u_add"]("U", "d", "u"), k["u_add"]("U", "a", "u"), k["u_remove"]("U", "a"), k["u_remove"]("U", "d"), k["u_add"]("U", "d", "v"), k["v_remove"]("d", "U"), k["v_remove"]("a", "U"),
+              k["u_add"]("U", "W", "u"), k["u_remove"]("U", "W"), k["u_add"]("W", "d", "u")]
+    return A
+
+
+def _seq_job(job):
+    from sa.src import Source
+    root, overlay, prop, rule, fam, kind, depth, first, extra, small = job
+    key = (root, tuple(sorted(overlay.items())), extra)
+    if _WORLD.get("key") != key:
+        src = Source(root, overlay)
+        mods = list(MODS)
+        xo = None
+        if extra:
+            import importlib
+            xo = getattr(importlib.import_module(extra[0]), extra[1])
+            mods += list(getattr(xo, "modules", ()))
+        h = H(src, mods)
+        if xo is not None and hasattr(xo, "setup"):
+            xo.setup(h)
+        _WORLD.update(key=key, h=h, xo=xo)
+    col = _Collector()
+    try:
+        n = run_sequences_one(_WORLD["h"], col, prop, rule, fam, kind, depth, first, _WORLD["xo"], small)
+    except Unknown as u:
+        col.undecide(f"sequence engine, {fam} / {kind}: {u}")
+        n = 0
+    except Raised as r:
+        col.undecide(f"sequence engine, {fam} / {kind}: building the graph raises {r}")
+        n = 0
+    return n, col.calls
+
+
+def run_sequences_one(h, res, prop, rule, fam, kind, depth, first, extra_observers, small=False):
+    C = c04.consts(h)
+    OBS = observers(h, C) + (extra_observers(h, C) if extra_observers else [])
+    A = alphabet(h, fam, kind, OBS, small)
+    if first >= len(A):
+        return 0
+    mine = [o for o in OBS if prop in o.props]
+    if kind == "universes":
+        mine = [o for o in mine if not o.name.startswith(("neighbors(", "find_links(")) and "links" not in o.name and "I1" not in o.name or prop in ("C06", "C07", "C08")]
+        if prop in ("C06", "C07", "C08"):
+            mine = [o for o in OBS if prop in o.props and "(U," in o.name]
+    elif prop in ("C04", "C05", "C09"):
+        mine = [o for o in mine if any(o.name.startswith(f"neighbors({v}") for v in "abc") or o.name.startswith(("find_links(a, b", "find_links(b, a"))]
+    i1 = [o for o in OBS if o.name.startswith("I1 ")]
+    for o in mine:
+        o._mine = True          # the "read" operation of the alphabet also evaluates the property's own observers (warms what they cache)
+    n = 0
+    seen = set()
+    h.w.set_order = "insertion"
+    tails = [t for d_ in range(0, depth) for t in itertools.product(range(len(A)), repeat=d_)]
+    for tail in tails:
+        idx = (first,) + tail
+        ops = [A[i] for i in idx]
+        if ops[-1].kind in ("flag", "read") or all(o.kind in ("flag", "read") for o in ops):
+            continue        # observations are made after the last operation of a sequence: it is a mutation
+        label = "; ".join(o.label for o in ops)
+        try:
+            g = G(h, fam)
+            flag(h, False)
+            model_ok = True
+            for step, mu in enumerate(ops):
+                out = mu.do(g)
+                if mu.kind in ("flag", "read"):
+                    continue
+                if model_ok:
+                    try:
+                        mr = mu.model(g.m)
+                    except (KeyError, ValueError):
+                        mr = DC
+                    if mr is DC or check_result(out, mr, g):
+                        if mr is not DC and prop == "C03":
+                            n += 1
+                            res.ob(False, sig=("seq", fam, idx[:step + 1], "call"))
+                            res.violation(rule, mu.qual, f"family={fam},sequence,call={mu.kind}", f"sequence [{'; '.join(o.label for o in ops[:step + 1])}] on the {fam} graph: the last call {check_result(out, mr, g)}")
+                        model_ok = False
+                if not model_ok and prop != "C01":
+                    break
+                if step != len(ops) - 1:
+                    continue        # shorter sequences are evaluated on their own
+                for o in (mine if model_ok else i1):
+                    r = o.do(g)
+                    want = o.want(g.m) if model_ok else []
+                    if want is DC:
+                        continue
+                    got = r.value.v if r.kind == "return" and isinstance(r.value, _Plain) else osig(r)
+                    ok = o.cmp(got, want) if o.cmp else got == want
+                    n += 1
+                    res.ob(ok, sig=("seq", fam, idx[:step + 1], o.name))
+                    if not ok:
+                        key = (o.qual, tuple(x.kind for x in ops[:step + 1]), o.name.split("(")[0])
+                        if key in seen:
+                            continue
+                        seen.add(key)
+                        res.violation(rule, o.qual, f"family={fam},sequence={'+'.join(x.kind for x in ops[:step + 1])},observer={o.name.split('(')[0].split('.')[-1][:24]}",
+                                      f"sequence [{'; '.join(x.label for x in ops[:step + 1])}] on the {fam} graph (caching off at the start): {o.name} gives {got!r}, "
+                                      + (f"the reference model replaying the same calls gives {want!r}" if model_ok else "required: no violation of I1 (also after a call that raised)"),
+                                      replay=replay(fam, "off", None, o) + "\n# then: " + "; ".join(x.label for x in ops[:step + 1]))
+        except Unknown as u:
+            res.undecide(f"sequence [{label}] on the {fam} graph: {u}")
+    return n
+
+
+def run_sequences(ctx, res, prop, kind, depth, rule="SEQUENCE", families=("plain",), extra=None, small=False):
+    """Every sequence of `depth` operations of the focused alphabet (one job per first operation, in parallel)."""
+    import multiprocessing as mp
+    import os
+    root, overlay = str(ctx.src.root), dict(ctx.src.overlay)
+    nalpha = 3 + (17 if kind == "links" else 10) if not (small and kind == "universes") else 7
+    jobs = [(root, overlay, prop, rule, fam, kind, depth, first, extra, small) for fam in families for first in range(nalpha)]
+    nproc = min(len(jobs), os.cpu_count() or 1, 16)
+    if nproc > 1 and not os.environ.get("VERIF_HIST_SERIAL") and not mp.current_process().daemon:
+        with mp.get_context("fork").Pool(nproc) as pool:
+            parts = pool.map(_seq_job, jobs, chunksize=1)
+    else:
+        parts = [_seq_job(j) for j in jobs]
+    n = 0
+    for k, calls in parts:
+        n += k
+        for name, args in calls:
+            if name == "ob":
+                res.ob(args[0], sig=args[1])
+            elif name == "violation":
+                res.violation(*args[0], **args[1])
+            elif name == "undecide":
+                res.ob(False)
+                res.undecide(*args)
+            else:
+                res.note(*args)
+    res.rule(rule, n)
+    res.extra.setdefault("histories", {})[rule + "/" + kind] = {"alphabet": nalpha, "length": depth, "families": list(families), "comparisons": n}
+    return n
+
+
+# ------------------------------------------------------------------------------- object lifetime along traversals
+def lifetime_traversals(ctx, res, prop, rule="FILTER-LIFETIME"):
+    """Caching on; a traversal with a throw-away ff_via filter; the filter is dropped (if nothing reaches it any more its address is
+    free) and the next traversal's filter is allocated there: the second listing must follow the second filter."""
+    h = H(ctx.src, MODS)
+    C = c04.consts(h)
+    n = 0
+    for tname, (mod, lst, gen, srch) in trav.TRAVS.items():
+        for caching in (True,):
+            try:
+                g = G(h, "plain")
+                flag(h, caching)
+                mk = h.sym["make_reject"]
+                fn = h.fn(f"{mod}.{lst}")
+                f1 = h.I.call(mk, [g.obj("b")], {})
+                h.call(fn, None, g.obj("a"), ff_via=f1)
+                f2 = h.I.call(mk, [g.obj("c")], {})
+                handed = h.reuse_id(f2, f1, list(g.O.values()))
+                out = h.call(fn, None, g.obj("a"), ff_via=f2)
+            except Unknown as u:
+                res.ob(False)
+                res.undecide(f"{rule} {tname}: {u}")
+                continue
+            nbm = {v: [x for x in m_neighbors(g.m, v, "FORWARD", "NONNEIGHBOR") if x != "c"] for v in g.m.vlinks}
+            want = trav.REF[tname](nbm, "a", lambda x: True)
+            got = osig(out)
+            n += 1
+            res.ob(got == want, sig=(rule, tname))
+            if got != want:
+                res.violation(rule, f"{mod}.{gen}", "caching-on,second-filter-allocated-where-the-first-one-lived",
+                              f"caching on; {lst}(None, a, ff_via=f1) with a throw-away filter f1 (rejects b); f1 is dropped{' and f2 (rejects c) is allocated at its address' if handed else ''}; "
+                              f"{lst}(None, a, ff_via=f2) lists {got}, the listing under f2 is {want}")
+    res.rule(rule, n)
+    return n
